@@ -144,8 +144,13 @@ SvcR(fail, reply, lx) == [fail |-> fail, reply |-> reply, lx |-> lx]
 \* per call: the failed services (few) and the set of slices that had a successful service (kept small: huge request
 \* lists usually repeat a few slices)
 SvcFailed(svc, status) == ~(status = 0 \/ (status = 6 /\ svc = 82))
-LogSvc(lx, r, svc, status, ext) ==
+\* Only statuses INJECTED by the scenario are logged as failures: an error the target returns on its own for a
+\* request whose intent is valid means the driver asked for the wrong thing, and the result is judged as usual.
+LogInjected(lx, r, svc, status, ext) ==
     IF SvcFailed(svc, status) THEN [lx EXCEPT !.svclog = Append(@, [key |-> r.key, off |-> r.off, bit |-> r.bit, svc |-> svc, status |-> status, ext |-> ext])]
+    ELSE lx
+LogSvc(lx, r, svc, status, ext) ==
+    IF SvcFailed(svc, status) THEN lx
     ELSE IF <<r.key, r.off>> \in lx.okslices THEN lx ELSE [lx EXCEPT !.okslices = @ \cup {<<r.key, r.off>>}]
 XferIdx(lx, path, svc) == {i \in 1..Len(lx.xfer) : lx.xfer[i].path = path /\ lx.xfer[i].svc = svc}
 DropXfer(lx, path, svc) == [lx EXCEPT !.xfer = SelectSeq(@, LAMBDA x : ~(x.path = path /\ x.svc = svc))]
@@ -160,7 +165,7 @@ TagService(lx0, svc, rawpath, segs, data, cap, choice, embedded) ==
     IN
     IF Len(inj) > 0 THEN
         LET st == inj[1][2]  ext == SubSeq(inj[1], 3, Len(inj[1]))
-            lx2 == IF r.ok THEN LogSvc(lx1, r, svc, st, ext) ELSE lx1
+            lx2 == IF r.ok THEN LogInjected(lx1, r, svc, st, ext) ELSE lx1
         IN SvcR("", MRReply(svc, st, ext, <<>>), DropXfer(lx2, rawpath, svc))
     ELSE IF ~r.ok THEN SvcR("", MRReply(svc, r.status, r.ext, <<>>), lx1)
     ELSE LET es == TSize(P, r.t)  mem == MemOf(lx1, r.key)  hdr == TypeHeader(P, r.t) IN
